@@ -30,6 +30,7 @@ def run(ctx):
         # workRemaining_ increment and the resizer's republication steps is narrow
         tr = pc.validate_prog(ctx, exe, 2, p, WHAT, n * 4 if (';' in p or 'pfq6' in p) else n, ctx.seed + i, mult=32, pct=(3 if i % 2 else 0))
     ctx.sample({'programs': progs})
+    pc.stress(ctx, WHAT, 4000 if thorough else 400, 8)
     ctx.sample_trace(tr, 12, skip=80)
     ctx.assumptions += pc.ASSUME + ['quiescence = GateQuiet: every submitted task ran and every live worker is blocked in the futex '
                                     '(so no worker holds an unflushed localWorkDone)']
